@@ -2,4 +2,4 @@ from ._multi import run_multi
 
 
 def run(tier, replay=None):
-    return run_multi('C16', tier, replay)
+    return run_multi('C05', tier, replay)
